@@ -67,7 +67,9 @@ def coords(low, o, name):
     return [val_term(low, o['%s.%s' % (name, c)]['f']) for c in 'xyz']
 
 
-def run(tier, seed, ck=None):
+def run(tier, seed, ck=None, only=None, on_fail=None):
+    """only: job ids to include when embedded (e.g. {'op2_0_0', 'op1_2'}: Add on distinct operands and Double, what the ladder uses);
+    on_fail(key, why, extra_cases): the embedding check replays through ITS OWN property instead of C02's battery"""
     own = ck is None
     ck = ck or Check('C02', tier, seed, level='proof')
     jobs = []
@@ -76,6 +78,9 @@ def run(tier, seed, ck=None):
             jobs.append({'id': 'op2_%d_%d' % (op, al), 'harness': 'vh_el_op2', 'args': [op, al], 'summaries': FIELD_SUMM})
     for op in (2, 3):
         jobs.append({'id': 'op1_%d' % op, 'harness': 'vh_el_op1', 'args': [op], 'summaries': FIELD_SUMM})
+    if only is not None:
+        jobs = [j for j in jobs if j['id'] in only]
+    inc = lambda jid: only is None or jid in only
     runs = ck.absorb(core.symx_parallel(HARNESS, jobs))
     ck.extra.setdefault('_runs', []).extend(runs)
     R_ = {r.id: r for r in runs}
@@ -85,9 +90,11 @@ def run(tier, seed, ck=None):
     ck.assumptions += ['coordinates are arbitrary field values (the identities do not even need the curve equation)']
     ck.bounds.update({'operands': 'all coordinate 6-tuples as ring elements', 'aliasing': 'distinct / argument is receiver / nil'})
     from props import C12
-    C12.run(tier, seed, ck, which=['Add', 'Subtract', 'Multiply', 'Negate', 'Square', 'Set', 'IsZero', 'One'])   # contracts of the field.Element methods used as summaries are re-proved on the current tree
+    C12.run(tier, seed, ck, which=['Add', 'Subtract', 'Multiply', 'Negate', 'Square', 'Set', 'IsZero', 'One'] if only is None else ['Add', 'Subtract', 'Multiply', 'Square', 'Set'])   # contracts of the field.Element methods used as summaries are re-proved on the current tree
 
     def replay_battery(key, why, extra=()):
+        if on_fail is not None:
+            return on_fail(key, why, list(extra))
         path = ck.save_replay({'property': ck.pid, 'cases': list(extra) + fold_boundary_scalings() + [{'kind': 'el-battery', 'op': 'group', 'n': ck.seed}]})
         ok, out = core.go_test(path)
         if not ok and 'MISMATCH' in out:
@@ -97,6 +104,8 @@ def run(tier, seed, ck=None):
 
     for op, nm in ((0, 'Add'), (1, 'Subtract')):
         for al in (0, 1, 2):
+            if not inc('op2_%d_%d' % (op, al)):
+                continue
             r = R_['op2_%d_%d' % (op, al)]
             tag = 'C02.%s.alias%d' % (nm, al)
             ok = len(r.paths) >= 1 and all(p_['end'] == 'return' for p_ in r.paths)
@@ -191,9 +200,10 @@ def run(tier, seed, ck=None):
                                 extra.append({'kind': 'el-scaled', 'a': '%064x' % (sc if nm_ == 'pz' else 1), 'b': '%064x' % (sc if nm_ == 'qz' else 1)})
                     replay_battery('group:' + nm, '%s differs from the complete addition formula' % nm, extra)
     # Double
-    r = R_['op1_2']
-    ok = len(r.paths) == 1 and r.paths[0]['end'] == 'return'
-    ck.ground('C02.Double.shape', 'single returning path', ok)
+    r = R_.get('op1_2')
+    ok = r is not None and len(r.paths) == 1 and r.paths[0]['end'] == 'return'
+    if r is not None:
+        ck.ground('C02.Double.shape', 'single returning path', ok)
     if ok:
         o = r.paths[0]['obs']
         low = PolyLower(r)
@@ -206,9 +216,10 @@ def run(tier, seed, ck=None):
         if 'sat' in ans:
             replay_battery('group:Double', 'Double differs from the complete doubling formula')
     # Negate
-    r = R_['op1_3']
-    rets = [p for p in r.paths if p['end'] == 'return']
-    ck.ground('C02.Negate.shape', 'two returning paths (identity test), no panic', len(rets) == 2 and len(r.paths) == 2)
+    r = R_.get('op1_3')
+    rets = [p for p in r.paths if p['end'] == 'return'] if r is not None else []
+    if r is not None:
+        ck.ground('C02.Negate.shape', 'two returning paths (identity test), no panic', len(rets) == 2 and len(r.paths) == 2)
     for p in rets:
         o = p['obs']
         low = PolyLower(r)
